@@ -178,7 +178,7 @@ fn pre_for(site: Site, pos: usize) -> Vec<Pre> {
 
 pub fn run(ctx: &Ctx) -> i32 {
     let mut report = ctx.report("C20", "exploration");
-    report.rule = "all 256 result codes x 14 abort sites {commit / cancel of one transaction while another one stays open, read_card, begin (reservation), commit (partial reversal), cancel (pre-auth reversal), configure: system info / set terminal id / initialization / reversal of a dangling pre-authorisation / end-of-day, end-of-day inside commit and inside cancel, reversal of a dangling pre-authorisation inside commit} x position of the abort in the reply script {first reply, after 1, 2, 3 intermediate statuses, after a status information (for a reservation: one already carrying a receipt number), after a receipt-less status information whose own result code (BMP 27) is 05 / FC / 64 / 6C, and (end-of-day / partial-reversal / pre-auth-reversal sites) the abort in its long form carrying a receipt number 4711 / FFFF}; and every (code, site) again with a connection fault (close / garbage) at the acknowledgement of the first attempt of that exchange, so that the abort answers the client's retry; for read_card / begin / commit / cancel every one of the 256 intermediate status values in front of every code; every (code, site) at four positions with a slow terminal that takes 25 s / 40 s for every reply of the exchange (the abort arrives up to four minutes after the request); and for read_card every code again arriving only after the terminal's own card time-out (read_card_timeout in {0,1,15,253,254,255} s plus 0.1-1.9 s, inside the client's grace period). Oracle: the call fails and the error identifies c (ZVTError::Aborted(c) in the chain, or the text contains the specification's message for c from an independently typed table, or c as a hex/decimal token); exactly three translations: read_card+6C -> NoCardPresented, reservation+FC -> NeedsPinEntry, end-of-day+A0 -> tolerated (the caller's own result stands). Duplicate-free enumeration; non-trivial = every case.".into();
+    report.rule = "all 256 result codes x 14 abort sites {commit / cancel of one transaction while another one stays open, read_card, begin (reservation), commit (partial reversal), cancel (pre-auth reversal), configure: system info / set terminal id / initialization / reversal of a dangling pre-authorisation / end-of-day, end-of-day inside commit and inside cancel, reversal of a dangling pre-authorisation inside commit} x position of the abort in the reply script {first reply, after 1, 2, 3 intermediate statuses, after a status information (for a reservation: one already carrying a receipt number), after a receipt-less status information whose own result code (BMP 27) is 05 / FC / 64 / 6C, and (end-of-day / partial-reversal / pre-auth-reversal sites) the abort in its long form carrying a receipt number 4711 / FFFF}; and every (code, site) again with a connection fault (close / garbage) at the acknowledgement of the first attempt of that exchange, so that the abort answers the client's retry; for read_card / begin / commit / cancel every one of the 256 intermediate status values in front of every code; every (code, site) at four positions with a slow terminal that takes 0.4 / 0.65 of the client's measured per-packet wait (24 s / 39 s of 60 s) for every reply of the exchange (the abort arrives up to four minutes after the request); and for read_card every code again arriving only after the terminal's own card time-out (read_card_timeout in {0,1,15,253,254,255} s plus 0.1-1.9 s, inside the client's grace period). Oracle: the call fails and the error identifies c (ZVTError::Aborted(c) in the chain, or the text contains the specification's message for c from an independently typed table, or c as a hex/decimal token); exactly three translations: read_card+6C -> NoCardPresented, reservation+FC -> NeedsPinEntry, end-of-day+A0 -> tolerated (the caller's own result stands). Duplicate-free enumeration; non-trivial = every case.".into();
     report.exhaustive = Some(true);
     report.assumptions = vec!["the pending query is answered by the terminal with an abort-shaped packet by protocol design (2.10.1) and is not an abort site; aborts during the handshake are connection failures (C09)".into()];
     assert_eq!(SPEC_MESSAGES.len(), 79);
@@ -219,13 +219,17 @@ pub fn run(ctx: &Ctx) -> i32 {
             }
         }
     });
-    // a slow terminal: every packet of the aborted exchange takes 25 s / 40 s (inside the per-packet wait), so that the
+    // a slow terminal: every reply of the aborted exchange takes 0.4 / 0.65 of the per-packet wait the client is observed to have (24 s / 39 s), so that the
     // abort arrives one and a half to four minutes after the request - the code is still the operation's result
+    let w_ms = crate::faults::measured_packet_wait_ms(&schema).unwrap_or(60_000);
+    report.extra.insert("measured_per_packet_wait_ms".into(), json!(w_ms));
+    // 24 s / 39 s with the 60 s of the pinned tree
+    let (short, long) = ((w_ms * 2 / 5000).max(1) as u32, (w_ms * 13 / 20000).max(1) as u32);
     sharded(&mut report, threads, |shard, r| {
         let mut k = 0usize;
         for site in SITES {
             for code in 0..=255u8 {
-                for (pos, secs) in [(0usize, 40u32), (2, 25), (3, 40), (4, 25)] {
+                for (pos, secs) in [(0usize, long), (2, short), (3, long), (4, short)] {
                     k += 1;
                     if k % threads != shard {
                         continue;
@@ -241,7 +245,10 @@ pub fn run(ctx: &Ctx) -> i32 {
     // time-out class incl. the largest), still inside the client's grace period
     sharded(&mut report, threads, |shard, r| {
         let mut k = 0usize;
-        for (rc, extra_ms) in [(255u8, 900u64), (254, 1500), (253, 1900), (0, 900), (15, 100), (1, 1500)] {
+        // how late "a little later" is scales with the grace the client is observed to give (2 s in the pinned tree:
+        // 900 / 1500 / 1900 / 900 / 100 / 1500 ms)
+        let g = crate::faults::measured_read_card_grace_ms(&schema);
+        for (rc, extra_ms) in [(255u8, g * 9 / 20), (254, g * 3 / 4), (253, g * 19 / 20), (0, g * 9 / 20), (15, g / 20), (1, g * 3 / 4)] {
             for code in 0..=255u8 {
                 k += 1;
                 if k % threads != shard {
